@@ -36,22 +36,25 @@ def suite(wt):
 
 
 def run(seed, check, tier="quick"):
+    """Apply the seeded change in a scratch worktree of /repo (never in /repo itself, so that other runs are not disturbed),
+    run the check against it (VERIF_REPO), remove the worktree. The evidence file of the clean tree is restored afterwards."""
     patch = os.path.join(seed, "patch.diff")
-    rc, out = sh("git -C /repo status --porcelain", "/repo")
-    if out.strip():
-        print("refusing: /repo is not clean:\n" + out)
-        sys.exit(2)
-    rc, out = sh("git -C /repo apply %s" % patch, "/repo")
+    wt = "/tmp/seedrepo-%d" % os.getpid()
+    rc, out = sh("git -C /repo worktree add --detach %s HEAD" % wt, "/repo")
     if rc != 0:
-        print("patch does not apply:", out)
+        print("cannot create worktree:", out)
         sys.exit(2)
     t0 = time.time()
     ev = "/verif/evidence/%s.json" % check
     saved = open(ev).read() if os.path.exists(ev) else None
     try:
-        rc, out = sh("bin/check %s %s" % (check, tier), "/verif", timeout=3600)
+        rc, out = sh("git -C %s apply %s" % (wt, patch), wt)
+        if rc != 0:
+            print("patch does not apply:", out)
+            sys.exit(2)
+        rc, out = sh("VERIF_REPO=%s bin/check %s %s" % (wt, check, tier), "/verif", timeout=3600)
     finally:
-        sh("git -C /repo checkout -- .", "/repo")
+        sh("git -C /repo worktree remove --force %s; git -C /repo worktree prune" % wt, "/repo")
         if saved is not None:      # evidence must describe runs on the unchanged tree only
             open(ev, "w").write(saved)
     lines = [l for l in out.splitlines() if l.startswith(("VIOLATION", "  key=", "KNOWN", "OK", "ERROR"))]
